@@ -13,6 +13,7 @@ Truncation: the encoded size is ANY function `size` of (number of keys shown,
 truncation notice); `limit` and the number of keys `actual` are arbitrary.
 -/
 import SerfProofs.Lemmas.KeyAgg
+import SerfModel.Gen.KeyStream
 namespace SerfProofs.C23
 open SerfModel SerfModel.KeyAgg SerfProofs.KeyAgg
 
@@ -87,6 +88,94 @@ theorem C23_error_iff_replies (numNodes : Nat) (rs : List NR) (h : 0 < numNodes)
   · rintro (h1 | h2)
     · exact Or.inl h1
     · exact Or.inr (by omega)
+
+/-! ### Tie to the source (regenerated on every run) -/
+
+/-- **The receive loop as it is in the source**: a FRESH `var nodeResponse` per reply, `NumResp++` first
+and unconditional, the type check and the decode each counting an error on rejection, then the effects,
+then the early return when `NumResp == NumNodes`; the type byte is the model's. -/
+theorem C23_stream_shape_gen :
+    Gen.KeyStream.shape.asModelled = true ∧ Gen.KeyStream.responseType = keyResponseType.toNat := by decide
+
+/-- **When each effect of a decoded reply happens** (path conditions regenerated from the nested ifs):
+`NumErr++` for EVERY reply with `Result = false` — whether or not it carries a message —, a message
+entry for failed replies and for successful ones with a non-empty message, the keys and the primary key
+always. -/
+theorem C23_effect_guards_gen (n : NodeKeyResp) :
+    Gen.KeyStream.errGuard n = !n.result ∧
+    Gen.KeyStream.msgGuard n = (!n.result || (n.result && decide (n.message.length > 0))) ∧
+    Gen.KeyStream.keysGuard n = true ∧ Gen.KeyStream.primaryGuard n = true := by
+  simp [Gen.KeyStream.errGuard, Gen.KeyStream.msgGuard, Gen.KeyStream.keysGuard, Gen.KeyStream.primaryGuard]
+
+/-- … hence the transcribed loop body is the source's. -/
+theorem C23_step_gen (resp : KeyResponse) (r : NR) :
+    stepOneG Gen.KeyStream.errGuard Gen.KeyStream.msgGuard Gen.KeyStream.keysGuard Gen.KeyStream.primaryGuard resp r =
+      stepOne resp r := by
+  unfold stepOneG stepOne
+  cases r.payload with
+  | badType => rfl
+  | undecodable => rfl
+  | decoded n =>
+    cases hr : n.result <;> by_cases hm : n.message.length > 0 <;>
+      simp [Gen.KeyStream.errGuard, Gen.KeyStream.msgGuard, Gen.KeyStream.keysGuard, Gen.KeyStream.primaryGuard, hr, hm]
+
+/-- The error checks of `handleKeyRequest` as written: first `NumErr != 0`, then `NumResp != NumNodes`
+(the order `keyRequestError` transcribes), with `NumNodes` taken from memberlist before the replies are read. -/
+theorem C23_error_checks_gen :
+    Gen.KeyStream.errorChecks = [("resp.NumErr != 0", "failure"), ("resp.NumResp != resp.NumNodes", "missing")] ∧
+    Gen.KeyStream.numNodesSource = "k.serf.memberlist.NumMembers()" := by decide
+
+/-- Regression witness: with `NumErr++` only under a non-empty message (guard
+`len(Message) > 0 && !Result`), a node that fails WITHOUT a message is not counted and the operation
+reports success. -/
+theorem C23_silent_failure_counterexample :
+    let step := stepOneG (fun n => decide (n.message.length > 0) && !n.result) (fun n => decide (n.message.length > 0))
+                  (fun _ => true) (fun _ => true)
+    keyRequestError (step { numNodes := 1 } ⟨"a", .decoded ⟨false, "", [], ""⟩⟩) = none ∧
+    keyRequestError (stepOne { numNodes := 1 } ⟨"a", .decoded ⟨false, "", [], ""⟩⟩) = some (.failures 1 1) := by
+  decide
+
+theorem streamRawLoop_fresh (dec : DecoderInto) (rs : List (String × Bytes)) :
+    ∀ (resp : KeyResponse) (var : NodeKeyResp),
+      streamRawLoop true dec resp var rs =
+        streamLoop resp (rs.map fun sp => ⟨sp.1, (classifyInto dec zeroResp sp.2).1⟩) := by
+  induction rs with
+  | nil => intro resp var; rfl
+  | cons sp rs ih =>
+    intro resp var
+    obtain ⟨sender, p⟩ := sp
+    simp only [streamRawLoop, List.map_cons, streamLoop, if_true]
+    split
+    · rfl
+    · exact ih _ _
+
+/-- **Each reply is decoded on its own**: with the decode target declared inside the loop (as the source
+has it) the loop over raw payloads and a stateful decoder is `streamKeyResp` over the replies classified
+from a ZERO value — a reply that omits fields gets zero values, never the previous reply's; all the
+aggregation theorems above therefore apply to raw reply streams. -/
+theorem C23_fresh_target (dec : DecoderInto) (numNodes : Nat) (rs : List (String × Bytes)) :
+    streamKeyRespRaw true dec numNodes rs =
+      streamKeyResp numNodes (rs.map fun sp => ⟨sp.1, (classifyInto dec zeroResp sp.2).1⟩) :=
+  streamRawLoop_fresh dec rs _ _
+
+/-- A msgpack-like stateful decoder: byte 1 = error; byte 2 = the full reply {Result:true, Keys:[k], PrimaryKey:k};
+byte 3 = the minimal reply {Result:true} (other fields keep what the target held). -/
+def keepDec : DecoderInto := fun prev b =>
+  match b with
+  | 1 :: _ => none
+  | 2 :: _ => some ⟨true, "", ["k"], "k"⟩
+  | 3 :: _ => some { prev with result := true }
+  | _ => some prev
+
+example : cnt (streamKeyRespRaw true keepDec 2 [("a", [8, 2]), ("b", [8, 3])]).keys "k" = 1 := by decide
+
+/-- Regression witness (the hoisted `var nodeResponse`): the minimal reply of node b inherits node a's keys and
+primary key: key `k` is reported on 2 nodes although only one holds it. -/
+theorem C23_reused_target_counterexample :
+    cnt (streamKeyRespRaw false keepDec 2 [("a", [8, 2]), ("b", [8, 3])]).keys "k" = 2 ∧
+    cnt (streamKeyRespRaw false keepDec 2 [("a", [8, 2]), ("b", [8, 3])]).primary "k" = 2 ∧
+    cnt (streamKeyRespRaw true keepDec 2 [("a", [8, 2]), ("b", [8, 3])]).primary "k" = 1 := by
+  decide
 
 /-! ### truncation -/
 
